@@ -203,6 +203,11 @@ def known_gate_circuits(cirq, gs, tier):
                 out.append((name, qs, cirq.Circuit(ge.on(qs[0], qs[1]))))
                 if tier != 'quick' or (e == -1 and g in (cirq.ISWAP, cirq.SWAP)):
                     out.append((name, qs, cirq.Circuit(cirq.CZ(qs[1], qs[2]), ge.on(qs[0], qs[1]), cirq.CZ(qs[1], qs[2]))))
+        # one-operation sub-circuits that repeat or remap their body, next to a two-qubit gate
+        for two in (cirq.XX ** 0.5, cirq.CZ):
+            body = cirq.FrozenCircuit(cirq.X(qs[0]) ** 0.5)
+            out.append((name, qs, cirq.Circuit(two.on(qs[0], qs[1]), cirq.CircuitOperation(body, repetitions=2))))
+            out.append((name, qs, cirq.Circuit(two.on(qs[0], qs[1]), cirq.CircuitOperation(body, qubit_map={qs[0]: qs[1]}))))
         # three-qubit gates with their own decomposition routes, at fractional powers, on the qubits in any order
         import itertools as _it
         perms = list(_it.permutations(qs)) if tier != 'quick' else [tuple(qs), (qs[2], qs[0], qs[1])]
@@ -245,6 +250,14 @@ def check_gatesets(ctx, cirq, n):
                 else:
                     g = {1: gen.one_qubit_gate, 2: gen.two_qubit_gate}[k](cirq, rng)
                 ops.append(g.on(*rng.sample(qs, k)))
+                if rng.random() < 0.2:
+                    # a sub-circuit operation that repeats or remaps a one-qubit body (compilers unwrap one-operation sub-circuits)
+                    qa = rng.choice(qs)
+                    body = cirq.FrozenCircuit(gen.one_qubit_gate(cirq, rng).on(qa))
+                    kw = rng.choice([{'repetitions': 2}, {'repetitions': 3}, {'repetitions': -1}, {'qubit_map': {qa: rng.choice(qs)}}])
+                    if kw.get('qubit_map', {}).get(qa) == qa:
+                        kw = {'repetitions': 2}
+                    ops.append(cirq.CircuitOperation(body, **kw))
             circuit = cirq.Circuit(ops)
         try:
             out = cirq.optimize_for_target_gateset(circuit, gateset=gateset)
